@@ -47,6 +47,37 @@ fn build(ast: &Ast) -> NFA<u8> {
     }
 }
 
+/// The same expression written with the operators: `a + b + c` for a sequence, `a | b | c` for a choice
+/// (left-associated, as Rust parses them); sequences and choices of fewer than two parts have no operator form.
+fn build_ops(ast: &Ast) -> NFA<u8> {
+    match ast {
+        Ast::Seq(v) if v.len() >= 2 => {
+            let mut it = v.iter().map(build_ops);
+            let first = it.next().unwrap();
+            it.fold(first, |a, b| a + b)
+        }
+        Ast::Choice(v) if v.len() >= 2 => {
+            let mut it = v.iter().map(build_ops);
+            let first = it.next().unwrap();
+            it.fold(first, |a, b| a | b)
+        }
+        Ast::Seq(v) => NFA::sequence(v.iter().map(build_ops)),
+        Ast::Choice(v) => NFA::choice(v.iter().map(build_ops)),
+        Ast::Opt(a) => build_ops(a).optional(),
+        Ast::Some(a) => build_ops(a).some(),
+        Ast::Many(a) => build_ops(a).many(),
+        leaf => build(leaf),
+    }
+}
+
+fn has_operator_form(ast: &Ast) -> bool {
+    match ast {
+        Ast::Seq(v) | Ast::Choice(v) => v.len() >= 2 || v.iter().any(has_operator_form),
+        Ast::Opt(a) | Ast::Some(a) | Ast::Many(a) => has_operator_form(a),
+        _ => false,
+    }
+}
+
 /// `choice([alt_i.tag_stop_state(i)]).tags_map(|t| TAG_BASE + t)`
 fn build_tagged(alts: &[Ast]) -> NFA<usize> {
     NFA::choice(alts.iter().enumerate().map(|(i, a)| build(a).tag_stop_state(i as u8)))
@@ -300,6 +331,8 @@ fn show_ders(d: &[Re]) -> String {
 enum Program {
     /// whole program, untagged
     Plain(Ast),
+    /// whole program, untagged, built with the `+` and `|` operators
+    PlainOps(Ast),
     /// tagged choice of the alternatives
     Tagged(Vec<Ast>),
     /// automata used by the production decoders
@@ -310,6 +343,7 @@ impl Program {
     fn json(&self) -> Value {
         match self {
             Program::Plain(a) => json!({"ast": a.to_json(), "show": a.to_string()}),
+            Program::PlainOps(a) => json!({"ast": a.to_json(), "operators": true, "show": format!("{} (built with + and |)", a)}),
             Program::Tagged(v) => {
                 let a = Ast::Choice(v.clone());
                 json!({"ast": a.to_json(), "tagged": true, "show": format!("tagged {}", a)})
@@ -331,6 +365,8 @@ impl Program {
                 Ast::Choice(alts) => Ok(Program::Tagged(alts)),
                 _ => Err("tagged program must be a choice".into()),
             }
+        } else if v.get("operators").and_then(|x| x.as_bool()).unwrap_or(false) {
+            Ok(Program::PlainOps(ast))
         } else {
             Ok(Program::Plain(ast))
         }
@@ -338,13 +374,14 @@ impl Program {
     fn show(&self) -> String {
         match self {
             Program::Plain(a) => a.to_string(),
+            Program::PlainOps(a) => format!("{} (built with + and |)", a),
             Program::Tagged(v) => format!("tagged {}", Ast::Choice(v.clone())),
             Program::Production(n) => format!("production {n} automata"),
         }
     }
     fn profile(&self) -> String {
         match self {
-            Program::Plain(a) => a.op_profile(),
+            Program::Plain(a) | Program::PlainOps(a) => a.op_profile(),
             Program::Tagged(v) => Ast::Choice(v.clone()).op_profile(),
             Program::Production(n) => format!("production-{n}"),
         }
@@ -352,7 +389,7 @@ impl Program {
     /// component programs and expected tags
     fn components(&self) -> (Vec<Ast>, Option<Vec<usize>>) {
         match self {
-            Program::Plain(a) => (vec![a.clone()], None),
+            Program::Plain(a) | Program::PlainOps(a) => (vec![a.clone()], None),
             Program::Tagged(v) => (v.clone(), Some((0..v.len()).map(|i| TAG_BASE + i).collect())),
             Program::Production(n) => {
                 let v = if *n == "event" { event_grammars() } else { command_grammars() };
@@ -364,6 +401,7 @@ impl Program {
     fn with_automaton<R>(&self, f: impl FnOnce(&dyn Automaton) -> R) -> R {
         match self {
             Program::Plain(a) => f(&LibDfa(build(a).compile())),
+            Program::PlainOps(a) => f(&LibDfa(build_ops(a).compile())),
             Program::Tagged(v) => f(&LibDfa(build_tagged(v).compile())),
             Program::Production(n) => f(&ProdDfa(if *n == "event" { event_dfa() } else { command_dfa() })),
         }
@@ -770,6 +808,9 @@ impl<'a> Explorer<'a> {
                             self.check(name, &Program::Tagged(alts.clone()), gi, cross);
                         }
                     }
+                }
+                if has_operator_form(&ast) {
+                    self.check(name, &Program::PlainOps(ast.clone()), gi, false);
                 }
                 self.check(name, &Program::Plain(ast), gi, cross);
             }
